@@ -553,6 +553,71 @@ def codec_stage(ctx):
     ctx.cov["transitions"] += total
 
 
+def plain_tlc(ctx, name, module, cfg_lines, defs, workers=12, timeout=1500):
+    """A model that emits no scripts (its binding to the code is a trace specification)."""
+    d = os.path.join(ctx.dir, name)
+    os.makedirs(d, exist_ok=True)
+    for root in (SPEC, os.path.join(SPEC, "props")):
+        for f in os.listdir(root):
+            if f.endswith(".tla"):
+                shutil.copy(os.path.join(root, f), d)
+    open(os.path.join(d, "MC.tla"), "w").write(f"---- MODULE MC ----\nEXTENDS {module}\n{defs}\n====\n")
+    open(os.path.join(d, "MC.cfg"), "w").write("\n".join(cfg_lines) + "\n")
+    t0 = time.time()
+    rc, out, err = sh(f"timeout {timeout} java -XX:+UseParallelGC -Xmx12g -cp {JAR} tlc2.TLC -workers {workers} "
+                      f"-metadir {d}/states -noGenerateSpecTE -config MC.cfg MC.tla 2>&1", cwd=d, timeout=timeout + 60)
+    shutil.rmtree(os.path.join(d, "states"), ignore_errors=True)
+    st = parse_tlc_log(out)
+    st["wall_s"] = round(time.time() - t0, 1)
+    log(f"[{ctx.pid}] model {name}: {st['distinct']} distinct states, {st['wall_s']}s, violated={st['violated']}")
+    if rc == 124:
+        ctx.cov["exhaustive"] = False
+    elif st["error"] and not st["violated"]:
+        raise ToolError(f"TLC error in {name}: {st['error']}\n" + "\n".join(out.splitlines()[-25:]))
+    m = re.search(r"Assumption .* is false", out)
+    if st["violated"] or m:
+        p = os.path.join(REPLAYS, f"{ctx.pid}-model-{name}.log")
+        os.makedirs(REPLAYS, exist_ok=True)
+        open(p, "w").write(out[-20000:])
+        ctx.violation(f"{ctx.pid}:model:{name}:{st['violated'] or 'assume'}",
+                      f"TLC: {st['violated'] or m.group(0)} violated on the specification ({name})", replay_path=p)
+    ctx.cov["states"] += st["distinct"]
+    ctx.cov["transitions"] += st["states_generated"]
+    ctx.cov["slices"].append({"name": name, "module": module, "cfg": cfg_lines, "distinct_states": st["distinct"],
+                              "wall_s": st["wall_s"], "complete": st["finished"] and rc != 124})
+    return st
+
+
+def taproot_stage(ctx):
+    d = os.path.join(ctx.dir, "taproot")
+    os.makedirs(d, exist_ok=True)
+    n = 2500 if ctx.tier == "thorough" else 450
+    ep = os.path.join(d, "tr.ndjson")
+    rc, o, e = sh(f"{FV} taproot --seed {ctx.seed} --sessions {n} --events {ep}", cwd=d, timeout=3000)
+    if rc != 0 or "SUMMARY" not in o:
+        raise ToolError(f"fv taproot failed: {o[-400:]} {e[-400:]}")
+    n_ev, bad = run_trace_tlc(d, "TraceTaproot", ep)
+    ev = load_events(ep)
+    log(f"[{ctx.pid}] taproot: {n_ev} events ({n} sessions, {n * 15} fault cases) validated against TraceTaproot, {len(bad)} law violations")
+    seen = set()
+    for (line, op, law) in bad:
+        key = f"{ctx.pid}:tr:{law}"
+        if key in seen:
+            continue
+        seen.add(key)
+        e = ev[line - 1] if line >= 1 else {}
+        if law == "parity_combination_missing":
+            raise ToolError("not every parity combination was observed: increase the number of sessions")
+        ctx.violation(key, f"Taproot law {law} violated in session {e.get('i')}: {json.dumps({k: v for k, v in e.items() if k != 'faults'})[:400]}",
+                      replay_obj={"seed": ctx.seed, "sessions": n, "event": e, "law": law})
+    ctx.cov["trace_events_validated"] += n_ev
+    ctx.cov["traces_validated_against_impl"] += n
+    ctx.cov["taproot_sessions"] = n
+    ctx.cov["taproot_fault_cases"] = n * 15
+    if ev:
+        ctx.cov["samples"].append({k: v for k, v in ev[1].items() if k != "faults"})
+
+
 def assume_stage(ctx, name, module, consts, timeout=900):
     """Constant-level obligations (ASSUMEs) decided by TLC; no behaviours, no replay."""
     d = os.path.join(ctx.dir, name)
